@@ -259,7 +259,12 @@ def records(ctx, frs):
     fu = repo.func(SOLVER, "TDGLSolver.update")
     fn = fu.node
     pm = parent_map(fn)
+    from ..dataflow import expand
     apps: Dict[str, List[List[str]]] = {}
+
+    def gtext(f_, x, br):
+        # guards compared after expanding alias locals (options = self.options, probe_points = self.probe_points)
+        return ("" if br == "true" else "not ") + norm(expand(f_, x.test))
     for n in own_nodes(fn):
         if isinstance(n, ast.Call) and norm(n.func) == "running_state.append" and n.args and isinstance(n.args[0], ast.Constant):
             st = n
@@ -270,21 +275,30 @@ def records(ctx, frs):
                 if isinstance(x, (ast.For, ast.While)):
                     g.append("LOOP")
                 elif isinstance(x, ast.If):
-                    g.append(("" if br == "true" else "not ") + norm(x.test))
+                    g.append(gtext(fn, x, br))
             apps.setdefault(n.args[0].value, []).append(g)
     fs = repo.func(SOLVER, "TDGLSolver.solve")
     decl: Dict[str, List[str]] = {}
     pms = parent_map(fs.node)
+    # the declaration table is the dict handed to Runner(running_names_and_sizes=...)
+    tname = None
+    for n in own_nodes(fs.node):
+        if isinstance(n, ast.Call):
+            for k in n.keywords:
+                if k.arg == "running_names_and_sizes" and isinstance(k.value, ast.Name):
+                    tname = k.value.id
+    if tname is None:
+        raise AnalysisError("solve() no longer passes a local table as Runner(running_names_and_sizes=...)")
     for n in own_nodes(fs.node):
         if isinstance(n, ast.Assign):
             for t in n.targets:
-                if isinstance(t, ast.Name) and t.id == "running_names_and_sizes" and isinstance(n.value, ast.Dict):
+                if isinstance(t, ast.Name) and t.id == tname and isinstance(n.value, ast.Dict):
                     for k in n.value.keys:
                         decl[k.value] = []
-                if isinstance(t, ast.Subscript) and norm(t.value) == "running_names_and_sizes" and isinstance(t.slice, ast.Constant):
-                    decl[t.slice.value] = [("" if br == "true" else "not ") + norm(x.test)
+                if isinstance(t, ast.Subscript) and norm(t.value) == tname and isinstance(t.slice, ast.Constant):
+                    decl[t.slice.value] = [gtext(fs.node, x, br)
                                            for x, br in guards_of(fs.node, n, pms) if isinstance(x, ast.If)]
-    norm_g = lambda g: [x.replace("self.probe_points", "probe_points") for x in g]
+    norm_g = lambda g: list(g)
     for name in sorted(set(apps) | set(decl)):
         a = apps.get(name, [])
         ok = len(a) == 1 and "LOOP" not in a[0] and name in decl and norm_g(a[0]) == norm_g(decl[name])
